@@ -112,6 +112,8 @@ def classify_events(ctx, scope):
                 kind = "reset"
             elif name == "truncate" and len(args) > 1 and S.const_value(args[1]) == 0:
                 kind = "reset"
+            elif name == "truncate":
+                kind = "neutral"        # drops a tail, shows nothing of the content
             elif name == "drain" and len(args) > 1 and "RangeFull" in str(args[1]):
                 kind = "reset"
             elif name in ("copy_from_slice", "fill", "clone_from", "clone_from_slice"):
